@@ -240,9 +240,18 @@ impl fmt::Display for Formatted<'_, Number> {
                 self.format.precision
             });
 
-            if frac != 0. {
-                let max_decimals = 16 - whole.log10().ceil() as usize;
-                for _ in 1..max_decimals.min(self.format.precision) {
+            // A number with a fraction is below 2^53, so `whole` fits an u64.
+            let int_digits = if whole < 1. {
+                0
+            } else {
+                (whole as u64).ilog10() as usize + 1
+            };
+            let decimals =
+                16usize.saturating_sub(int_digits).min(self.format.precision);
+            if frac != 0. && decimals == 0 {
+                whole = s.abs().round();
+            } else if frac != 0. {
+                for _ in 1..decimals {
                     frac *= 10.;
                     write!(dec, "{}", (frac as i8).abs())?;
                     frac = frac.fract();
